@@ -8,6 +8,7 @@ CONSTANTS
  DedupMode = "peer+id"
  AtomicDedup = FALSE
  AllowRelay = TRUE
+ SigCache = "none"
  MCCfgs <- Cfg3
  Bodies = {x, y}
  MaxFSig = 4
